@@ -71,25 +71,50 @@ def get_branches(ctx, col):
     if not rets or not all(isinstance(r.value, ast.Tuple) and len(r.value.elts) == 2 for r in rets):
         col.unresolved("R-FLUSH", d.qualname, cb.loc(), "accumulator shape", "callback does not return (closed, open) pairs")
         return
-    # pass-through arm: the `if` whose test is a count predicate true only for k == 1
-    arms = [n for n in cb.node.body if isinstance(n, ast.If)]
-    pt = None
-    for a in arms:
-        t = tables.count_table(repo, cb.module, a.test)
-        if t is not None:
-            pt = (a, t)
-            break
-    if pt is None:
-        col.unresolved("R-THRESH", cb.qualname, cb.loc(), "pass-through test", "no child-count test found")
+    # pass-through code: where the node's own id is appended to an open chain OUTSIDE the loop over the child chains;
+    # the condition under which that statement runs (enclosing tests and earlier guards, sa/pathcond.py) is the
+    # pass-through predicate, whichever way round the `if` is written
+    from .. import pathcond
+
+    def _in_loop(st):
+        p = repo.parent(st)
+        while p is not None and p is not cb.node:
+            if isinstance(p, (ast.For, ast.While)):
+                return True
+            p = repo.parent(p)
+        return False
+    ext = [st for st in own_nodes(cb) if isinstance(st, ast.Expr) and isinstance(st.value, ast.Call)
+           and isinstance(st.value.func, ast.Attribute) and st.value.func.attr == "append" and len(st.value.args) == 1
+           and norm_src(st.value.args[0]) == f"{node_p}.id" and not _in_loop(st)]
+    if len(ext) != 1:
+        col.unresolved("R-THRESH", cb.qualname, cb.loc(), "pass-through test", "no single place where the node joins the open chain outside the child loop")
         return
-    arm, tab = pt
-    col.check(tab == PASS, "R-THRESH", cb.qualname, cb.loc(arm), "branch accumulation: pass-through <=> exactly one child",
-              f"{norm_src(arm.test)} -> {tab}", f"`{norm_src(arm.test)}` is true for child counts "
-              f"{[k for k, v in enumerate(tab) if v]}, expected [1]", stmt="passthrough", definite=True)
+    tests, complete = pathcond.conditions_at(cb.node, ext[0])
+    tab = tables.count_table(repo, cb.module, pathcond.as_expr(tests)) if tests else None
+    if tab is None:
+        col.unresolved("R-THRESH", cb.qualname, cb.loc(ext[0]), "pass-through test", "the condition under which the node joins the open chain is not a child-count test")
+        return
+    # the arm: the block the extension statement is in
+    arm_block = None
+    for owner in ast.walk(cb.node):
+        for f in ("body", "orelse"):
+            b = getattr(owner, f, None)
+            if isinstance(b, list) and any(x is ext[0] for x in b):
+                arm_block = b
+    k0 = next(i for i, x in enumerate(arm_block) if x is ext[0])
+
+    class _Arm:  # the statements from the extension to the end of its block
+        body = arm_block[max(0, k0 - 1):]
+        test = pathcond.as_expr(tests)
+        lineno = ext[0].lineno
+    arm = _Arm
+    col.check(tab == PASS, "R-THRESH", cb.qualname, cb.loc(ext[0]), "branch accumulation: pass-through <=> exactly one child",
+              f"{norm_src(arm.test)} -> {tab}", f"the node joins the open chain under `{norm_src(arm.test)}`, true for child counts "
+              f"{[k for k, v in enumerate(tab) if v]}, expected [1]", stmt="passthrough", definite=complete)
     # in the pass-through arm the open chain is extended and returned unclosed
     src_arm = [norm_src(s) for s in arm.body]
-    opens = [r for r in ast.walk(arm) if isinstance(r, ast.Return)]
-    closes_in_arm = any(isinstance(x, ast.Call) and (dotted(x.func) or "").endswith("Branch") for x in ast.walk(arm))
+    opens = [r for s_ in arm.body for r in ast.walk(s_) if isinstance(r, ast.Return)]
+    closes_in_arm = any(isinstance(x, ast.Call) and (dotted(x.func) or "").endswith("Branch") for s_ in arm.body for x in ast.walk(s_))
     ok = len(opens) == 1 and not closes_in_arm and any(f".append({node_p}.id)" in s for s in src_arm)
     col.check(ok, "R-BRANCH", cb.qualname, cb.loc(arm), "a pass-through node extends the open chain with its own id and passes it up unclosed",
               "; ".join(src_arm), "pass-through arm does not append the node to the open chain / closes it", stmt="extend")
